@@ -471,39 +471,54 @@ func (c07Prop) Execute(p *Plan, run *Run) any {
 				break
 			}
 		}
-		d := ref.WriteContainer(ref.Magic, meta, c.Sync, blocks)
-		out := readAllOut(target, pl.Chunks.OutPtr, openReader(d, pl.Chunks), -1, nil)
-		run.Evals++
-		executed++
-		run.Faults.Inc("S-meta(" + pl.Family + ")")
-		run.Log.Add("%s n=%d err=%v", pl.Family, len(out.Delivered), out.Err != nil)
-		run.Sig("%s|%s|%s|blocks:%s", pl.Family, codec, pl.File.Writer, bucket(len(c.Blocks)))
-		if pl.Family == "no-codec" {
-			if codec != "null" {
-				break
+		// the same header in front of the file's blocks, and in front of nothing at
+		// all (a header-only file is a container too, and a header the property
+		// names as damaged is no less damaged for having no blocks behind it)
+		variants := [][]ref.BlockSpec{blocks}
+		if len(blocks) > 0 {
+			variants = append(variants, nil)
+		}
+		for vi, vblocks := range variants {
+			wantD := D
+			hdrOnly := ""
+			if vi == 1 {
+				wantD = nil
+				hdrOnly = " (header-only file)"
 			}
-			if out.Panic != nil {
-				run.Violation("c07/panic", out.PanicSite, fmt.Sprintf("header without avro.codec: panic: %v", out.Panic), nil)
-				return nil
-			}
-			if out.Err != nil || len(out.Delivered) != len(D) {
-				run.Violation("c07/no-codec-not-null", "no-codec", fmt.Sprintf("header without avro.codec over uncompressed blocks: %d of %d records delivered, err=%v (must read like the null codec)", len(out.Delivered), len(D), out.Err), nil)
-				return nil
-			}
-			for i := range D {
-				if ok, where := EqualNorm(D[i], out.Delivered[i]); !ok {
-					run.Violation("c07/no-codec-not-null", "no-codec", fmt.Sprintf("header without avro.codec: record %d differs from the null-codec read at %s", i, where), nil)
+			d := ref.WriteContainer(ref.Magic, meta, c.Sync, vblocks)
+			out := readAllOut(target, pl.Chunks.OutPtr, openReader(d, pl.Chunks), -1, nil)
+			run.Evals++
+			executed++
+			run.Faults.Inc("S-meta(" + pl.Family + ")")
+			run.Log.Add("%s v%d n=%d err=%v", pl.Family, vi, len(out.Delivered), out.Err != nil)
+			run.Sig("%s|%s|%s|blocks:%s", pl.Family, codec, pl.File.Writer, bucket(len(vblocks)))
+			if pl.Family == "no-codec" {
+				if codec != "null" {
+					break
+				}
+				if out.Panic != nil {
+					run.Violation("c07/panic", out.PanicSite, fmt.Sprintf("header without avro.codec%s: panic: %v", hdrOnly, out.Panic), nil)
 					return nil
 				}
+				if out.Err != nil || len(out.Delivered) != len(wantD) {
+					run.Violation("c07/no-codec-not-null", "no-codec", fmt.Sprintf("header without avro.codec over uncompressed blocks%s: %d of %d records delivered, err=%v (must read like the null codec)", hdrOnly, len(out.Delivered), len(wantD), out.Err), nil)
+					return nil
+				}
+				for i := range wantD {
+					if ok, where := EqualNorm(wantD[i], out.Delivered[i]); !ok {
+						run.Violation("c07/no-codec-not-null", "no-codec", fmt.Sprintf("header without avro.codec: record %d differs from the null-codec read at %s", i, where), nil)
+						return nil
+					}
+				}
+				continue
 			}
-			break
-		}
-		what := "header without avro.schema"
-		if pl.Family == "unknown-codec" {
-			what = fmt.Sprintf("header with avro.codec=%q", pl.CodecName)
-		}
-		if !checkDamaged(out, 0, 0, what, pl.Family, nil) {
-			return nil
+			what := "header without avro.schema" + hdrOnly
+			if pl.Family == "unknown-codec" {
+				what = fmt.Sprintf("header with avro.codec=%q%s", pl.CodecName, hdrOnly)
+			}
+			if !checkDamaged(out, 0, 0, what, pl.Family, nil) {
+				return nil
+			}
 		}
 	case "callback":
 		recs := []int{}
